@@ -48,19 +48,34 @@ def pf_snap(pf):
             hash(tuple(repr(e) for e in pf.history)) & 0xffffffff]
 
 
+class AnySlippage(object):
+    """stands in for the documented (unimplemented) slippage_model option: whatever method is called on it answers the last
+    numeric argument moved by 0.1 %.  The option is accepted and ignored today; fills must stay at the quoted bid / ask."""
+
+    def __getattr__(self, name):
+        if name.startswith('__'):
+            raise AttributeError(name)
+
+        def method(*args, **kwargs):
+            nums = [a for a in list(args) + list(kwargs.values()) if isinstance(a, (int, float)) and not isinstance(a, bool)]
+            return nums[-1] * 1.001 if nums else None
+        return method
+
+
 def run_broker(c):
     cfg = c['cfg']
     dh = StubDataHandler(c['quotes'])
     start = ts(cfg['start'])
     try:
         exch = SimulatedExchange(ts(cfg['exch_start']) if cfg.get('exch_start') is not None else start)
+        extra = {'slippage_model': AnySlippage()} if cfg.get('slippage_probe') else {}
         if cfg.get('fee_late'):
             # built with the default (zero) fee model; the public fee_model attribute is set afterwards, before any operation
-            broker = SimulatedBroker(start, exch, dh, account_id='acct', base_currency=cfg['base'], initial_funds=cfg['funds'])
+            broker = SimulatedBroker(start, exch, dh, account_id='acct', base_currency=cfg['base'], initial_funds=cfg['funds'], **extra)
             broker.fee_model = mk_fee(cfg['fee'])
         else:
             broker = SimulatedBroker(start, exch, dh, account_id='acct', base_currency=cfg['base'], initial_funds=cfg['funds'],
-                                     fee_model=mk_fee(cfg['fee']))
+                                     fee_model=mk_fee(cfg['fee']), **extra)
     except Exception as e:
         return {'init': errname(e)}
     fills = []
@@ -189,6 +204,17 @@ def run_broker(c):
 
 
 def run_portfolio(c):
+    if c.get('tzmix'):
+        # the same instants, each written in another time zone (the portfolio compares instants, not wall-clock readings)
+        zones = ['Asia/Tokyo', 'UTC', 'America/New_York', 'Australia/Sydney', 'Europe/London']
+        counter = [0]
+        plain = globals()['ts']
+
+        def ts(sec_):
+            counter[0] += 1
+            return plain(sec_).tz_convert(zones[counter[0] % len(zones)])
+    else:
+        ts = globals()['ts']
     pf = Portfolio(ts(c['start']), starting_cash=c['cash'], portfolio_id='p')
     steps = []
     snap0 = pf_snap(pf)
